@@ -13,6 +13,9 @@ from common import Check, main_wrapper
 def main():
     ck = Check("C03", "translation_validation")
     ck.lean_stage(["VelaVerif.Props.C03", "VelaVerif.Props.C03LutState"])
+    import pending
+
+    pending.register(ck)          # repairs written but not yet in the tree under test (harness/pending.py)
     # function level: the table residency pass of lut.py (real LUTState / optimize_high_level_cmd_stream on objects of the
     # repo's own classes) against Model/LutState.lean, its streams judged by the byte-level Spec/LutWindow.lean
     ls = lutstate_lib.run_all(ck)
